@@ -246,10 +246,37 @@ def without_duplicates(spec):
     return {'runs': keep}
 
 
+def two_holders_workload(rng, seed):
+    """Two holders of one results file: an object A is paused (possibly
+    with unsaved trials: save_frequency > 1), another process B resumes the
+    same specification on the file and saves, then A.run() is called again;
+    a last fresh process finishes."""
+    knobs = {
+        'ext': rng.choice(['.json', '.json.gz']),
+        'bufsize': rng.choice([512, 8192]),
+        'save_frequency': rng.choice([2, 3, 5]),
+        'update_frequency': 5, 'entry': 'api', 'subdir': False,
+    }
+    spec = without_duplicates({'runs': _spec_runs(gen_spec(rng))[
+        :rng.choice([1, 2])]})
+    t1 = rng.randint(3, 8)
+    t2 = t1 + rng.choice([0, 1, 2, 3])
+    t3 = t2 + rng.choice([0, 1, 3, 4])
+    t4 = t3 + rng.choice([0, 2])
+    mk = lambda t, mode, **kw: dict({'op': 'run', 'spec': copy.deepcopy(spec),   # noqa: E731
+                                     'target': t, 'mode': mode,
+                                     'fault': None}, **kw)
+    steps = [mk(t1, 'new'), mk(t2, 'new'), mk(t3, 'same_object', of=0),
+             mk(t4, 'new')]
+    return {'property': PROP, 'seed': seed, 'knobs': knobs, 'steps': steps}
+
+
 def gen_workload(seed):
     """Fault-free skeleton of a plan: 2-5 incarnations with non-decreasing
     targets on one output file."""
     rng = stream(seed, 'workload')
+    if rng.random() < 0.1:
+        return two_holders_workload(rng, seed)
     tiny = rng.random() < 0.4
     knobs = {
         'ext': rng.choice(['.json', '.json.gz']),
@@ -280,12 +307,23 @@ def gen_workload(seed):
                               'target': target, 'mode': 'new',
                               'fault': None})
             target += rng.choice([0, 0, 1, 2, 3])
+            of = None
             if (knobs['entry'] == 'api' and steps[-1]['mode'] == 'new'
                     and canon(steps[-1]['spec']) == canon(spec)
                     and rng.random() < 0.3):
                 mode = 'same_object'
-        steps.append({'op': 'run', 'spec': copy.deepcopy(spec),
-                      'target': target, 'mode': mode, 'fault': None})
+                # two holders of one file: sometimes it is not the previous
+                # incarnation's object that is resumed but an older one,
+                # after another process has worked on the file in between
+                if (len(steps) >= 2 and steps[-2]['mode'] == 'new'
+                        and canon(steps[-2]['spec']) == canon(spec)
+                        and rng.random() < 0.5):
+                    of = len(steps) - 2
+        st = {'op': 'run', 'spec': copy.deepcopy(spec),
+              'target': target, 'mode': mode, 'fault': None}
+        if mode == 'same_object' and of is not None:
+            st['of'] = of
+        steps.append(st)
     return {'property': PROP, 'seed': seed, 'knobs': knobs, 'steps': steps}
 
 
@@ -350,6 +388,7 @@ class Inc:
         self.carry = carry      # same_object: identity -> in-memory seq
         self.batch = None
         self.constructed = False   # api entry: read_input_dict returned
+        self.resumed = False       # its object was run() again later
 
 
 class Exec:
@@ -412,14 +451,21 @@ class Exec:
                 ok = (0 <= k <= len(E) and seq[:len(P)] == P
                       and seq[len(P):] == E[:k])
             else:
+                # same object resumed: either it reloads what the file
+                # holds (P) and adds new trials, or - if the file's record is
+                # a prefix of what the object has in memory - it may keep
+                # complete in-memory trials beyond the file
                 base = inc.carry.get(x, [])
                 P = inc.adopt.get(x, [])
-                ok = False
-                for j in range(len(P), len(base) + 1):
-                    k = len(seq) - j
-                    if 0 <= k <= len(E) and seq == base[:j] + E[:k]:
-                        ok = True
-                        break
+                k = len(seq) - len(P)
+                ok = (0 <= k <= len(E) and seq[:len(P)] == P
+                      and seq[len(P):] == E[:k])
+                if not ok and base[:len(P)] == P:
+                    for j in range(len(P), len(base) + 1):
+                        k = len(seq) - j
+                        if 0 <= k <= len(E) and seq == base[:j] + E[:k]:
+                            ok = True
+                            break
             if ok:
                 if x in self.M and len(seq) < len(self.M[x]):
                     self.violate('save_regressed', {
@@ -543,21 +589,29 @@ class Exec:
         if self.only_first:
             steps = steps[:1]
         prev = None
+        incs = {}
         for idx, step in enumerate(steps):
             mode = step.get('mode', 'new')
+            tgt = prev
+            if mode == 'same_object' and step.get('of') is not None:
+                tgt = incs.get(step['of'])
+                if tgt is not None and tgt is not prev:
+                    sim.probe('older_object_resumed_after_another_process')
             if mode == 'same_object' and (
-                    prev is None or prev.batch is None or prev.killed
-                    or prev.mode != 'new' or not prev.constructed):
+                    tgt is None or tgt.batch is None or tgt.killed
+                    or tgt.mode != 'new' or not tgt.constructed
+                    or tgt.resumed):
                 mode = 'new'
             proc = sim.new_proc(f'inc{idx}',
                                 copy.deepcopy(step.get('fault')))
             adopt = dict(self.M)
             carry = {}
             if mode == 'same_object':
-                for x in set(prev.adopt) | set(
-                        self.ledger.by_proc.get(prev.proc.pid, {})):
-                    carry[x] = (prev.adopt.get(x, []) +
-                                self.ledger.executed(prev.proc.pid, x))
+                tgt.resumed = True
+                for x in set(tgt.adopt) | set(
+                        self.ledger.by_proc.get(tgt.proc.pid, {})):
+                    carry[x] = (tgt.adopt.get(x, []) +
+                                self.ledger.executed(tgt.proc.pid, x))
                 sim.probe('same_object_resume')
             inc = Inc(idx, proc, mode, adopt, carry)
             inc.killed = False
@@ -585,7 +639,8 @@ class Exec:
                 if tracer:
                     tracer.start()
                 try:
-                    self._run_entry(step, inc, prev)
+                    self._run_entry(step, inc,
+                                    tgt if mode == 'same_object' else prev)
                 finally:
                     if tracer:
                         tracer.stop()
@@ -646,6 +701,7 @@ class Exec:
             if self.violations:
                 break
             prev = inc
+            incs[idx] = inc
 
     def final_check(self, step, inc, last):
         """After a fault-free incarnation: the file and the in-memory
@@ -979,6 +1035,13 @@ def shrink(plan, want_sig, max_exec=200):
             if len(steps) > 1:
                 q = copy.deepcopy(p)
                 del q['steps'][i]
+                for st in q['steps']:
+                    if st.get('of') is not None:
+                        if st['of'] == i:
+                            st.pop('of')
+                            st['mode'] = 'new'
+                        elif st['of'] > i:
+                            st['of'] -= 1
                 yield q
         # simpler knobs
         for k, v in (('entry', 'api'), ('subdir', False),
